@@ -212,10 +212,99 @@ func checkSessionAMBR(c *listCtx) {
 	}
 }
 
+// network names (TS 24.008 10.5.3.5a, GSM 7-bit default alphabet packing of TS 23.038 6.1.2.1):
+// septet i occupies bits 7i .. 7i+6 of the octet string (bit 0 = least significant bit of the
+// first text octet); ceil(7L/8) text octets; the spare-bit field is the number of unused bits in
+// the last octet; octet 1 of the value is ext(1) | coding scheme 000 | add CI 0 | spare bits.
+func checkNetworkNames(c *listCtx, tier string) {
+	lens := []int{0, 1, 2, 6, 7, 8, 9, 10, 15, 16, 17, 24}
+	if tier == "thorough" {
+		lens = nil
+		for l := 0; l <= 64; l++ {
+			lens = append(lens, l)
+		}
+	}
+	for _, name := range []string{"FullNetworkNameToNas", "ShortNetworkNameToNas"} {
+		fn, fname := c.fn("nasConvert", name)
+		if fn == nil {
+			continue
+		}
+		for _, L := range lens {
+			c.r.Site("name.gsm7")
+			it := newListInterp(c.w)
+			it.Fuel = 100000
+			st := it.NewState()
+			s := StrV{Sym: true}
+			var chars []BV
+			for i := 0; i < L; i++ {
+				ch := bvZext(it, it.SrcBV(fmt.Sprintf("ch[%d]", i), 7), 8)
+				s.Chars = append(s.Chars, ch)
+				chars = append(chars, ch)
+			}
+			res := it.Call(fn, []Value{s}, st, 0)
+			ag, ok := res.(AggV)
+			msg := "result not resolvable"
+			if ok {
+				n := (7*L + 7) / 8
+				spare := uint64(8*n - 7*L)
+				want := []BV{it.constBV(0x80|spare, 8)}
+				for k := 0; k < n; k++ {
+					o := BV{W: 8, B: make([]*Node, 8)}
+					for b := 0; b < 8; b++ {
+						t := 8*k + b
+						if t < 7*L {
+							o.B[b] = chars[t/7].B[t%7]
+						} else {
+							o.B[b] = it.T.zero
+						}
+					}
+					want = append(want, o)
+				}
+				got, okB := sliceBytes(it, st, ag.Cells[".Buffer"])
+				if !okB {
+					ok = false
+				} else if ok, msg = sameOctets(it, fmt.Sprintf("network name of %d characters: value", L), got, want); ok {
+					if ok, msg = sameBV(it, ag.Cells[".Len"], it.constBV(uint64(1+n), 8)); !ok {
+						msg = "IE length is not 1 + the number of text octets: " + msg
+					}
+				}
+			}
+			c.verdict("name.gsm7", fname, fmt.Sprintf("%d characters", L), fn, it, ok, msg)
+		}
+	}
+}
+
 func propC17(w *World, r *Report, tier string) {
 	c := &listCtx{w: w, r: r}
+	r.Explanation = "Each helper is interpreted over go/ssa in the bit-term domain (E2, with circuits for multiplication and division by constants and models of strconv.ParseUint, " +
+		"strings.Split, fmt.Sprintf(\"%02d:%02d\") and the time.Time accessors) on symbolic inputs, and the claim is decided as a Boolean function of all input bits by ROBDD: " +
+		"timers: for EVERY duration of the range the octet is a valid timer that decodes (TS 24.008 unit table) to no more than requested, and every multiple 0..31 of every unit is " +
+		"encoded exactly; session AMBR: for every five-digit value 0..65535 and unit the six octets are unit code (Table 9.11.4.14.1) and big-endian value; network names: for each " +
+		"name length the value is ext|000|0|spare-bits followed by the TS 23.038 septet packing of the symbolic 7-bit characters; time zone: for every hour digit, minute, sign and " +
+		"adjustment the octet stands for the signed quarter count (sign-and-BCD, semi-octets swapped), the decoder maps every valid octet to 900 s times it and to the +HH:MM text; " +
+		"universal time: every field octet is the swapped BCD of the time.Time accessor (2000-2099) and the decoder hands the same values to time.Date / time.FixedZone."
+	r.Assumptions = []string{"time.Time accessors, time.Date and time.FixedZone are modelled as uninterpreted (stdlib trusted)",
+		"names are GSM 7-bit default alphabet characters (bit 8 clear); name lengths are specialised (0..24 quick, 0..64 thorough)",
+		"AMBR text is '<five decimal digits> <unit>' (leading zeros allowed) - shorter digit strings are the same code path",
+		"zone text is sign, two hour digits (first 0 or 1), ':', minutes 00/15/30/45 and an optional +1/+2, as GetTimeZone produces"}
+	r.Trusted = []string{"go/ssa", "E2 interpreter, its arithmetic circuits and text models", "ROBDD package", "the checker's transcription of TS 24.008 10.5.7.4/10.5.7.4a/10.5.3.5a/10.5.3.8, TS 23.038 6.1.2.1, TS 24.501 9.11.4.14"}
+	defer func() {
+		r.Expect("timer.not-more", 2)
+		r.Expect("timer.exact", 9)
+		r.Expect("ambr.layout", 5)
+		r.Expect("name.gsm7", 24)
+		r.Expect("tz.encode", 48)
+		r.Expect("tz.decode", 1)
+		r.Expect("tz.dst", 6)
+		r.Expect("tz.text", 1)
+		r.Expect("time.encode", 2)
+		r.Expect("time.decode", 1)
+	}()
 	checkTimers(c)
 	checkSessionAMBR(c)
+	checkNetworkNames(c, tier)
+	checkTimeZone(c)
+	checkUniversalTime(c)
 }
 
 var _ = strings.Join
